@@ -1526,6 +1526,62 @@ mod tests {
     impl_conv_integer_test!(test_conv_integer_i8_u8, i8, u8);
     impl_conv_integer_test!(test_conv_integer_i8_i8, i8, i8);
 
+    // Test convolution with padding, and with a batch size > 1 which causes the
+    // kernel to be prepacked, in combination with non-zero zero points.
+    macro_rules! impl_conv_integer_padding_batch_test {
+        ($name:ident, $input_ty:ty, $weight_ty:ty) => {
+            #[test]
+            fn $name() {
+                let mut rng = XorShiftRng::new(1234);
+                let mut kernel_rng = ReducedRangeRng::new(true /* reduce_range */, 1234);
+                let pool = BufferPool::new();
+
+                let kernel = Tensor::<$weight_ty>::rand(&[3, 2, 3, 3], &mut kernel_rng);
+                let input_zero = Tensor::from(12 as $input_ty);
+                let kernel_zero = Tensor::from([1 as $weight_ty, 2, 3]);
+
+                for batch in [1, 2] {
+                    let input = Tensor::<$input_ty>::rand(&[batch, 2, 5, 5], &mut rng);
+
+                    for padding in [
+                        Padding::zero::<2>(),
+                        Padding::Fixed([1, 2, 1, 0].into()),
+                        Padding::Same,
+                    ] {
+                        let result = conv_integer(
+                            &pool,
+                            input.view(),
+                            kernel.view(),
+                            padding.clone(),
+                            1,       // groups
+                            &[1, 1], // strides
+                            &[1, 1], // dilations
+                            Some(input_zero.view()),
+                            Some(kernel_zero.view()),
+                        )
+                        .unwrap();
+                        let expected: Tensor<i32> = reference_conv(
+                            input.view(),
+                            kernel.view(),
+                            None,
+                            padding,
+                            1,       // groups
+                            &[1, 1], // strides
+                            &[1, 1], // dilations
+                            input_zero.item().copied(),
+                            kernel_zero.data(),
+                        );
+                        expect_equal(&result, &expected).unwrap();
+                    }
+                }
+            }
+        };
+    }
+    impl_conv_integer_padding_batch_test!(test_conv_integer_padding_batch_u8_u8, u8, u8);
+    impl_conv_integer_padding_batch_test!(test_conv_integer_padding_batch_u8_i8, u8, i8);
+    impl_conv_integer_padding_batch_test!(test_conv_integer_padding_batch_i8_u8, i8, u8);
+    impl_conv_integer_padding_batch_test!(test_conv_integer_padding_batch_i8_i8, i8, i8);
+
     #[test]
     fn test_conv_integer_to_float() {
         #[derive(Debug)]
